@@ -286,7 +286,8 @@ class C06(Prop):
         if errs:
             ctx.violate("C06|%s|release|loop-error|%s" % (surf, errs[0][0][:40]), repr(errs[:3]))
         # 3. delivery
-        self._check_delivery(plan, ctx, surf, snap["body"], complete_expected=(t_disc is None and exc is None))
+        # without a fault everything the producer yielded - also before it raised its own exception - must have been delivered
+        self._check_delivery(plan, ctx, surf, snap["body"], complete_expected=(t_disc is None and variant is None and (exc is None or exc is boom or exc is cboom)))
         if t_disc is None and exc is None and not snap["complete"] and not ctx.faults.get("send_raises"):
             ctx.violate("C06|%s|termination|returned-without-final-body" % surf, "")
 
@@ -445,7 +446,7 @@ class C06(Prop):
         if snap["res"] == "ok" and close_after is None and boom_at is not None and snap["exc"] is None and snap["close_exc"] is None:
             ctx.violate("C06|%s|exception|producer-exception-swallowed" % surf, "producer raised at step %d" % boom_at)
         # 3. delivery
-        self._check_delivery(plan, ctx, surf, snap["body"], complete_expected=(close_after is None and snap["exc"] is None and snap["res"] == "ok"))
+        self._check_delivery(plan, ctx, surf, snap["body"], complete_expected=(close_after is None and snap["res"] == "ok" and (snap["exc"] is None or snap["exc"] is boom or snap["exc"] is cboom)))
 
     # ======================= WSGI stream (sequential) =======================
     def _wsgi_stream(self, plan, ctx, variant):
@@ -470,8 +471,12 @@ class C06(Prop):
                 st["cleanup"] += 1
 
         peer = WsgiPeer(ctx, ctx.sched, AbstractRequest("GET", "/"), surface=surf)
-        peer.run(StreamResponse(gen()), close_after=close_after)
+        g = gen()                       # referenced until after the snapshot: an abandoned generator would otherwise be
+        resp = StreamResponse(g)        # finalised by reference counting and run its cleanup "by itself"
+        peer.run(resp, close_after=close_after)
         snap = dict(st)
+        del resp
+        g.close()
         ctx.ev("snap", snap["cleanup"], peer.n_items, type(peer.exc).__name__)
         ctx.actors = 1
         if variant is None:
@@ -483,7 +488,7 @@ class C06(Prop):
                 ctx.violate("C06|%s|exception|foreign-exception|%s" % (surf, type(e).__name__), repr(e))
         if close_after is None and boom_at is not None and peer.exc is None:
             ctx.violate("C06|%s|exception|producer-exception-swallowed" % surf, "")
-        self._check_delivery(plan, ctx, surf, peer.body, complete_expected=(close_after is None and peer.exc is None))
+        self._check_delivery(plan, ctx, surf, peer.body, complete_expected=(close_after is None and (peer.exc is None or peer.exc is boom)))
 
 
 PROP = C06
